@@ -599,6 +599,103 @@ fn build_test(c: &BuildCase, obs: &mut Obs) -> CheckResult {
     Ok(())
 }
 
+/// Accepted configurations over a whole sequence-number cycle: every cell of the builder's
+/// cross product (supported or not), from initial sequences below the wrap, for as many 254-probe
+/// rounds as it takes to pass the wrap threshold.  Crash freedom only.
+#[derive(Clone, Debug, Serialize, Deserialize)]
+pub struct LongCase {
+    pub cfg: TraceCfg,
+    pub silent: bool,
+}
+
+fn long_cases(tier: Tier) -> Vec<LongCase> {
+    let mut out = vec![];
+    for v6 in [false, true] {
+        for protocol in [Proto::Icmp, Proto::Udp, Proto::Tcp] {
+            for strategy in [Strat::Classic, Strat::Paris, Strat::Dublin] {
+                for ports in [Ports::None, Ports::FixedSrc(5000), Ports::FixedDest(33000), Ports::FixedBoth(5000, 33000)] {
+                    for privileged in [true, false] {
+                        let inits: &[(u16, u32)] = match tier {
+                            // (initial sequence, rounds): 254 sequence numbers per round
+                            Tier::Quick => &[(0, 6), (62500, 14), (64511, 8)],
+                            Tier::Thorough => &[(0, 264), (1, 264), (33434, 130), (64257, 12), (64511, 12)],
+                        };
+                        for &(init, rounds) in inits {
+                            for silent in [false, true] {
+                                if silent && init == 0 {
+                                    continue;
+                                }
+                                out.push(LongCase {
+                                    cfg: TraceCfg {
+                                        v6,
+                                        protocol,
+                                        strategy,
+                                        ports,
+                                        privileged,
+                                        ext_enabled: init % 2 == 0,
+                                        initial_sequence: init,
+                                        first_ttl: 1,
+                                        max_ttl: 254,
+                                        max_inflight: 255,
+                                        max_rounds: rounds,
+                                        read_timeout_ns: 1000,
+                                        min_round_ns: 0,
+                                        max_round_ns: 400_000,
+                                        grace_ns: 0,
+                                        tcp_connect_timeout_ns: 3000,
+                                        packet_size: if v6 { 64 + (init % 300) } else { 40 + (init % 300) },
+                                        ..TraceCfg::default()
+                                    },
+                                    silent,
+                                });
+                            }
+                        }
+                    }
+                }
+            }
+        }
+    }
+    out
+}
+
+fn long_test(c: &LongCase, obs: &mut Obs) -> CheckResult {
+    let mut world = super::c02::sweep_world();
+    if c.silent {
+        // nothing answers: max-inflight (255 here) lets every TTL go out in every round anyway
+        for h in &mut world.paths[0].hops {
+            h.mode = RespMode::Silent;
+        }
+        world.target.node.mode = RespMode::Silent;
+    }
+    let log = run_trace(&c.cfg, &world);
+    if log.build_error.is_some() {
+        obs.class("builder-rejected");
+        return Ok(());
+    }
+    if let Some(p) = &log.panic {
+        vfail!(
+            format!("accepted-config-panics-later:{}", panic_sig(p)),
+            "Builder::build accepted {} (initial sequence {}) but it panicked after {} published rounds / {} probes: {p}",
+            c.cfg.cell(),
+            c.cfg.initial_sequence,
+            log.rounds.len(),
+            log.sends.len()
+        );
+    }
+    if let Some(a) = &log.aborted {
+        vfail!("accepted-config-hangs", "Builder::build accepted {} but the run did not terminate: {a}", c.cfg.cell());
+    }
+    obs.extra_evals = log.sends.len() as u64;
+    obs.class(format!("long:{}", if c.silent { "silent" } else { "answering" }));
+    obs.class(match &log.result {
+        Some(Ok(())) => "ran",
+        Some(Err(_)) => "ran-to-error-value",
+        None => "no-result",
+    });
+    obs.nontrivial(&(c.cfg.cell(), c.cfg.initial_sequence, c.silent, log.sends.len()));
+    Ok(())
+}
+
 /// CLI-accepted configurations, through the mirrored `start_tracer` builder chain.
 #[derive(Clone, Debug, Serialize, Deserialize)]
 pub struct CliRunCase {
@@ -775,6 +872,12 @@ pub fn check() -> PropertyCheck {
         subs: vec![
             Box::new(Pbt { name: "layering", quick: 150_000, thorough: 2_000_000, strat: layer_strat, test: layer_test, max_shrink: 4000 }),
             Box::new(Pbt { name: "builder", quick: 60_000, thorough: 5_000_000, strat: build_strat, test: build_test, max_shrink: 3000 }),
+            Box::new(Enumerated {
+                name: "builder-long",
+                exhaustive_note: Some("every cell of protocol x family x strategy x port direction x privilege, accepted or not, run through a whole sequence-number cycle (wrap included) against an answering and a silent 254-hop path"),
+                cases: long_cases,
+                test: long_test,
+            }),
             Box::new(Enumerated { name: "special-values", exhaustive_note: Some("tui-max-addrs: file x command line over {absent, 0, 1, 3, 255}"), cases: sentinel_cases, test: sentinel_test }),
             Box::new(Pbt { name: "cli-run", quick: 60_000, thorough: 2_000_000, strat: cli_run_strat, test: cli_run_test, max_shrink: 3000 }),
         ],
